@@ -47,6 +47,7 @@ type FuncReport struct {
 }
 
 type Exec struct {
+	loopFresh *FrameSet // during havocLoop: heaps written only through in-loop allocations
 	prog   *Program
 	fn     *ssa.Function
 	fc     *FuncContract
@@ -807,6 +808,10 @@ func (x *Exec) run() {
 		for _, c := range x.fc.EntryAssumes {
 			st.assume(x.evalBool(ctx, c), "entry_assume ["+c.Label+"] (thread-local ghost definition)")
 		}
+		for _, c := range x.fc.CapturedRequires {
+			st.assume(x.evalBool(ctx, c), "captured_requires ["+c.Label+"] (proved where the closure is created; assumed stable until it runs)")
+			x.externsUsed["captured_requires ["+c.Label+"] of "+shortFuncName(funcKey(fn))+": proved at the closure's creation site, assumed to still hold when the closure runs"] = true
+		}
 	}
 	x.entry = st.clone()
 	if len(fn.Blocks) == 0 {
@@ -1271,6 +1276,8 @@ func (x *Exec) rangeIndexFacts(st *State, h *ssa.BasicBlock) {
 func (x *Exec) havocLoop(st *State, h *ssa.BasicBlock) {
 	blocks := loopBlocks(h)
 	frame := NewFrameSet()
+	x.loopFresh = NewFrameSet()
+	defer func() { x.loopFresh = nil }()
 	cells := map[*ssa.Alloc]bool{}
 	rangeIters := map[*ssa.Range]bool{}
 	for b := range blocks {
@@ -1315,8 +1322,31 @@ func (x *Exec) havocLoop(st *State, h *ssa.BasicBlock) {
 	for n := range frame.Names {
 		hn[n] = true
 	}
+	// heaps written only through cells allocated inside the loop: havoc, but cells allocated at loop entry keep their value
+	var freshOnly []string
+	for n := range x.loopFresh.Names {
+		hn[n] = true
+		if !frame.All && !frame.Names[n] {
+			freshOnly = append(freshOnly, n)
+		}
+	}
+	sort.Strings(freshOnly)
 	x.loopHeapNames[h] = hn
 	x.applyFrame(st, frame)
+	for _, n := range freshOnly {
+		hs, ok := heapSorts[n]
+		if !ok {
+			continue
+		}
+		old, have := st.heap[n]
+		if !have {
+			old = Const(n+"@pre", hs)
+			x.prog.U.AddFun(&FunDecl{Name: n + "@pre", Ret: hs})
+		}
+		x.havocHeap(st, n)
+		r := Const("r!lf", SInt)
+		st.assume(Forall([]BVar{{"r!lf", SInt}}, Implies(Select(st.alloc, r), Eq(Select(st.heap[n], r), Select(old, r)))), "cells of "+n+" allocated before the loop are not written by it (the loop stores only to cells it allocates)")
+	}
 	for r := range rangeIters {
 		if it, ok := st.regs[r].(*RangeIter); ok {
 			old := st.ranges[it.ID]
@@ -1334,6 +1364,12 @@ func (x *Exec) staticWrite(addr ssa.Value, loop map[*ssa.BasicBlock]bool, cells 
 	switch a := addr.(type) {
 	case *ssa.Alloc:
 		if a.Heap && !onlyIndexedAndSliced(a) {
+			if loop != nil && loop[a.Block()] && x.loopFresh != nil {
+				// a cell allocated inside the loop body is fresh in every iteration: a store to it cannot touch a cell
+				// that existed at loop entry
+				x.prog.addPointeeWrites(x.loopFresh, a.Type().(*types.Pointer).Elem(), -1)
+				return
+			}
 			x.prog.addPointeeWrites(frame, a.Type().(*types.Pointer).Elem(), -1)
 			return
 		}
@@ -1619,6 +1655,7 @@ func (x *Exec) execInstr(st *State, in ssa.Instruction) (forks []*State) {
 			fv.Bind = append(fv.Bind, x.get(st, b))
 		}
 		st.regs[v] = fv
+		x.closureCreated(st, in, fv)
 	case *ssa.MapUpdate:
 		mt := v.Map.Type().Underlying().(*types.Map)
 		m := x.toTerm(st, x.get(st, v.Map), v.Map.Type())
@@ -2288,3 +2325,31 @@ func (x *Exec) next(st *State, v *ssa.Next) []*State {
 }
 
 var _ = sort.Strings
+
+// closureCreated proves the captured_requires clauses of a contracted closure at its creation site. The clause is
+// evaluated with the closure's captured variables bound to the values of the cells it captures.
+func (x *Exec) closureCreated(st *State, in ssa.Instruction, fv *FuncVal) {
+	fc := x.prog.Contracts[funcKey(fv.Fn)]
+	if fc == nil || len(fc.CapturedRequires) == 0 {
+		return
+	}
+	vars := map[string]TV{}
+	for i, b := range fv.Bind {
+		if i < len(fv.Fn.FreeVars) {
+			if p, ok := b.(*Ptr); ok {
+				val, t := x.load(st, p)
+				vars[fv.Fn.FreeVars[i].Name()] = TV{V: val, T: t, S: x.prog.sortOf(t)}
+			}
+		}
+	}
+	pkg := x.pkg
+	if fv.Fn.Pkg != nil {
+		pkg = fv.Fn.Pkg.Pkg
+	}
+	x.curInstr = in
+	for _, c := range fc.CapturedRequires {
+		ctx := &EvalCtx{x: x, prog: x.prog, st: st, old: st, vars: vars, pkg: pkg, noLocals: true}
+		t := x.evalClauseAt(ctx, c)
+		x.oblige(st, "pre", fmt.Sprintf("%s.%s#created", lastName(shortFuncName(funcKey(fv.Fn))), c.Label), t, c.Text)
+	}
+}
